@@ -92,3 +92,41 @@ func vh_find_route_local() {
 	vassert(err2 == nil && r2.LocalAddress == a, "the source of an unbound socket is an address of the interface, whatever routes exist")
 	vassert(r2.LocalLinkAddress == n.linkEP.LinkAddress() && r2.RemoteAddress == remote, "link address and remote filled in")
 }
+
+// CheckLocalAddress (used by ARP and NDP to decide whether to answer for an address): with an
+// interface given, only that interface's own addresses count; with none, any interface's.
+func vh_check_local_address() {
+	s := VHStack()
+	np := &vhNetProto{}
+	VHAddProtocols(s, []NetworkProtocol{np}, nil)
+	n1 := VHNIC(s, 1, &VHLink{Mtu: 1500, Addr: "\x02\x00\x00\x00\x00\x01"})
+	n2 := VHNIC(s, 2, &VHLink{Mtu: 1500, Addr: "\x02\x00\x00\x00\x00\x02"})
+	a1, a2 := vhAddr4("addr1"), vhAddr4("addr2")
+	vassume(a1 != a2)
+	vassert(n1.AddAddress(vhNetP, a1) == nil && n2.AddAddress(vhNetP, a2) == nil, "addresses added")
+	q := vhAddr4("query")
+	id := tcpip.NICID(vnChoice("nicid", 4)) // 0 = any interface, 3 = no such interface
+	got := s.CheckLocalAddress(id, vhNetP, q)
+	want := tcpip.NICID(0)
+	switch id {
+	case 0:
+		if q == a1 {
+			want = 1
+		} else if q == a2 {
+			want = 2
+		}
+	case 1:
+		if q == a1 {
+			want = 1
+		}
+	case 2:
+		if q == a2 {
+			want = 2
+		}
+	}
+	vassert(got == want, "an address is local to an interface only if that interface has it (another interface's address is not answered for)")
+	if id == 1 && q == a2 {
+		vreach("other-nic")
+	}
+	vreach("checked")
+}
